@@ -42,7 +42,7 @@ def program_cases(rng, n):
         d = rng.choice([lim - 1, lim, -lim, -lim - 1, 0, -1, 1, rng.randrange(-lim - 3, lim + 3)])
         pre = filler(rng, rng.randrange(0, 6))
         npre = sum(dict(FILL)[t] for t in pre)
-        form = rng.choice(["label", "pc", "pc-after-data", "number", "equ-pc", "set-alias", "in-macro"])
+        form = rng.choice(["label", "pc", "pc-after-data", "number", "equ-pc", "set-alias", "in-macro", "macro-arg"])
         if form == "in-macro" and d >= 0:
             # the instruction is the expansion of a macro call that is the first thing after an .org (or a label, or data)
             gap = rng.choice([0, 3, 64])
@@ -54,6 +54,19 @@ def program_cases(rng, n):
             if ctx == "org" and gap == 0:
                 lines.pop()
             lines += ["  jumpit"] + body + ["tgt: nop"]
+            cases.append(("\n".join(lines) + "\n", at, word_of(op, d)))
+            continue
+        if form == "macro-arg" and d >= 0:
+            # the target is an ARGUMENT of the macro that holds the instruction: an expression with operators of equal and of
+            # different precedence on its right, which the expansion prints and reads again
+            body = filler(rng, d)
+            at = npre
+            t = npre + 1 + d
+            x, y, z = rng.randrange(0, 50), rng.randrange(0, 30), rng.randrange(0, 30)
+            expr = rng.choice(["%d-(%d-%d)" % (t + y - z, y, z), "%d-(%d+%d)" % (t + y + z, y, z), "tgt+%d-(%d-%d)" % (y - z, y, z), "tgt-(%d-%d)" % (y, y),
+                               "(%d)*1" % t, "%d/(2/2)" % t, "tgt+(%d>>(1<<0))-%d" % (2 * y, y), "pc+%d-(%d-%d)" % (d + 1 + y - z, y, z), "-(-%d)" % t,
+                               "%d-%d-(%d)" % (t + x + y, x, y)])
+            lines = [".macro jumpto", "  %s @0" % op, ".endm"] + pre + ["  jumpto %s" % expr] + body + ["tgt: nop"]
             cases.append(("\n".join(lines) + "\n", at, word_of(op, d)))
             continue
         if form in ("equ-pc", "set-alias"):
